@@ -376,3 +376,5 @@ def run(ctx):
     _run_rules(ctx)
     from .. import boundaries
     boundaries.check_writes(ctx, 'C20.RW', 'C20')
+    from .. import errdisc
+    errdisc.check(ctx, 'C20.RD', 'C20', 27)
